@@ -24,7 +24,7 @@ SUT_INC := -I$(REPO)/bxdecay0 -I$(CFG)/bxdecay0 -I$(REPO) -I$(CFG)
 SUT_DEF := -DENABLE_BINRELOC -D$(GUARD)
 COMMON  := -g -fno-omit-frame-pointer -MMD -MP -pthread
 
-WRAP_FS   := fopen64 fopen fclose read write writev time
+WRAP_FS   := fopen64 fopen fclose read write writev time open open64 close
 WRAP_GSL  := gsl_set_error_handler gsl_set_error_handler_off gsl_integration_qng
 WRAP_PTH  := pthread_mutex_lock pthread_mutex_unlock pthread_mutex_trylock __cxa_guard_acquire __cxa_guard_release __cxa_guard_abort
 wrapflags = $(foreach s,$(1),-Wl,--wrap=$(s))
